@@ -67,6 +67,12 @@ class Pool:
 def task_spec(name, t, journal):
     """sh script: journal start, (spawn grand-child), work, outputs, print payload, journal end, exit rc."""
     lines = [f'echo "start {name} $$ $(date +%s%N)" >> {journal}']
+    if t.get("orphan"):
+        # the shell exits at once, a background child keeps the task's output pipes open: the task is still
+        # running as far as the pool can tell, but its process group leader is gone
+        lines.append(f'sleep 300 & echo "child {name} $!" >> {journal}')
+        lines.append("exit 0")
+        return "\n".join(lines) + "\n"
     if t.get("grandchild"):
         lines.append(f'sleep 300 & GC=$!; echo "child {name} $GC" >> {journal}')
     lines.append(f"sleep {t['sleep_ms'] / 1000:.3f}")
@@ -100,7 +106,8 @@ def real_case(draw, max_tasks=6):
     cancels = draw(st.lists(st.tuples(st.integers(0, n - 1), st.sampled_from([0, 50, 200, 400])), max_size=2))
     if draw(st.booleans()):
         # a long-running victim with a grand-child, cancelled while it certainly runs (when a core is free)
-        tasks.append({"deps": [], "rc": 0, "sleep_ms": 2500, "out_bytes": 0, "grandchild": draw(st.booleans())})
+        tasks.append({"deps": [], "rc": 0, "sleep_ms": 2500, "out_bytes": 0, "grandchild": draw(st.booleans()),
+                      "orphan": draw(st.sampled_from([False, False, True]))})
         tasks[0], tasks[-1] = tasks[-1], tasks[0]
         for t in tasks:
             t["deps"] = [d for d in t["deps"] if d != 0 and d != len(tasks) - 1]
@@ -150,11 +157,12 @@ def run_real(case):
                 submissions[n_] = submissions.get(n_, 0) + 1
             t0 = time.monotonic()
             cancelled = set()
-            cancel_ns, cancel_out = {}, {}
+            cancel_ns, cancel_out, cancel_before_ns = {}, {}, {}
             for idx, after in sorted(case["cancels"], key=lambda c: c[1]):
                 dt = after / 1000 - (time.monotonic() - t0)
                 if dt > 0:
                     time.sleep(dt)
+                cancel_before_ns[idx] = time.time_ns()
                 rc = proj.gwf(["cancel", names[idx]])
                 cancel_ns[idx] = time.time_ns()
                 if rc.crashed:
@@ -250,6 +258,24 @@ def run_real(case):
                           f"second `gwf run` started, yet it was submitted again")
             # ---- C13: final states and logs
             cancelled = {i for i in cancelled if names[i] not in resubmitted}
+            # did the cancel arrive in time?  A task that journalled its end before the cancel was sent had
+            # finished: cancelling it changes nothing.  An end inside the cancel command's own duration is ambiguous.
+            ambiguous = set()
+            for i in sorted(cancelled):
+                e = end.get(names[i])
+                if e is not None and e < cancel_before_ns.get(i, 0):
+                    cancelled.discard(i)
+                    labels.add("cancel-after-finish")
+                elif e is not None and e <= cancel_ns.get(i, 0) + 50_000_000:
+                    cancelled.discard(i)
+                    ambiguous.add(i)
+            changed = True
+            while changed:  # everything downstream of an ambiguous task is ambiguous too
+                changed = False
+                for i, t in enumerate(tasks):
+                    if i not in ambiguous and any(d in ambiguous for d in t["deps"]):
+                        ambiguous.add(i)
+                        changed = True
             failed_or_blocked = set()
             for i, t in enumerate(tasks):
                 if t["rc"] != 0 or i in cancelled or any(d in failed_or_blocked for d in t["deps"]):
@@ -258,6 +284,12 @@ def run_real(case):
                 n = names[i]
                 st_ = table.get(n)
                 ran_to_end = n in end
+                if i in ambiguous:
+                    continue
+                if i not in failed_or_blocked and st_ == "cancelled":
+                    v("C17", "unselected-target-cancelled",
+                      f"{n} was not cancelled (nor anything it depends on), yet it shows cancelled; cancelled were "
+                      f"{[names[c] for c in sorted(cancelled)]}")
                 if i not in failed_or_blocked:
                     if st_ != "completed":
                         v("C13", "wrong-final", f"{n} ran successfully (journal end: {ran_to_end}) but shows {st_}", want="completed", got=st_)
